@@ -3,12 +3,12 @@
     [Print Assumptions] beneath.  Models: Model/Tokenizer.v, Model/Parser.v, Model/Command.v,
     Model/Printer.v; proofs: Proofs/ParserBasics.v, ExprRoundTrip.v, FuelProofs.v,
     ParserProofs.v, CommandProofs.v, TotalityProofs.v, PanicProofs.v, QueryRoundTrip.v,
-    TokenizerProofs.v, LexProofs.v, CommandRoundTrip.v. *)
+    TokenizerProofs.v, LexProofs.v, CommandRoundTrip.v, CostProofs.v. *)
 From Coq Require Import NArith ZArith List Bool.
-From Snel Require Import Base.Bytes Model.Tokenizer Model.Parser Model.Command Model.Printer
+From Snel Require Import Base.Bytes Gen.Params Model.Tokenizer Model.Parser Model.Command Model.Printer
   Proofs.ExprRoundTrip Proofs.FuelProofs Proofs.ParserProofs Proofs.CommandProofs
   Proofs.TotalityProofs Proofs.PanicProofs Proofs.QueryRoundTrip 
-  Proofs.TokenizerProofs Proofs.CommandRoundTrip.
+  Proofs.TokenizerProofs Proofs.CommandRoundTrip Proofs.CostProofs.
 Import ListNotations.
 Open Scope N_scope.
 
@@ -107,6 +107,29 @@ Theorem C17_store_string_braces : forall k v rest, clean_json_str k = true -> cl
   balanced_braces (member_block k v ++ rest) = Some (member_block k v, rest).
 Proof. exact store_block_with_string. Qed.
 Print Assumptions C17_store_string_braces.
+
+(** No exponential witness (04c7300).  In the form the Rust text is in (read by the translator: operands
+    parsed once, '{' not among the plain characters of balanced_braces) the number of factor /
+    balanced_braces invocations on the former witness families - nested parentheses (closed and one
+    short), NOT chains, parenthesised NOT chains, AND and OR chains up to depth 200, unclosed / closed /
+    one-short braces up to 1000 - is at most 2*length+2 resp. length+1, and the literal brace rule agrees
+    with the model's depth counter on them.  (In the re-parsing form the same families cost 4^depth and
+    2^n: CostProofs.reparsing_was_exponential.  A linear bound for all inputs is not proved; on the
+    implementation the criterion is the per-case time budget of the probe.) *)
+Theorem C17_no_exponential_witness :
+  forallb (fun d => linear_expr expr_grammar_reparses (fam_paren d)
+                    && linear_expr expr_grammar_reparses (fam_paren_open d)
+                    && linear_expr expr_grammar_reparses (fam_not d)
+                    && linear_expr expr_grammar_reparses (fam_not_paren d)
+                    && linear_expr expr_grammar_reparses (fam_and d)
+                    && linear_expr expr_grammar_reparses (fam_or d)) depths = true /\
+  forallb (fun n => linear_braces store_brace_rescans (fam_braces n)
+                    && linear_braces store_brace_rescans (fam_braces_closed n)
+                    && linear_braces store_brace_rescans (fam_braces_short n)) (depths ++ [34; 1000]%nat) = true /\
+  forallb (fun n => bb_agrees (fam_braces n) && bb_agrees (fam_braces_closed n) && bb_agrees (fam_braces_short n))
+          (depths ++ [34]%nat) = true.
+Proof. exact no_exponential_witness. Qed.
+Print Assumptions C17_no_exponential_witness.
 
 (** Dispatch: some variant of Command has no arm (Batch) ... *)
 Theorem C17_dispatch_refuted : exists k, In k all_kinds /\ dispatch_handled k = false.
